@@ -46,3 +46,36 @@ MANIFEST_TEXT["C05"] = dict(engine="E-hist", design_ref="DESIGN.md §4 C05",
     level_text="All operation sequences up to depth 4 (5 in thorough with the reduced alphabet) from 71/343 initial states, every transition executed on the real object and compared with a Vec<bool>/Vec<u64> reference; "
                "states deduplicated on the concrete representation so stale bits create new states and are flagged immediately.",
     level_note="Histories longer than the bound, and value patterns outside the alphabet, are not explored.")
+
+PROPS["C02"] = dict(
+    driver="c02", builds=["rel", "dbg"], level="exploration",
+    rule="E-input: (a) every subset of every universe n <= N; (b) every low-part width 1..=63 (universe 1.5*m*2^w for m in {1,2,3,17,40}) x four layouts (packed at the start, packed at the end incl. n-1, "
+         "evenly spread, straddling every bucket boundary 2^w*k-1 / 2^w*k), plus universes usize::MAX, usize::MAX-1, 2^63, 2^63+1 with 1-3 positions; (c) run-structured sets: every word up to depth d over "
+         "28 (gap, run) letters (the select_zero binary search needs > 16 ones); (d) empty vectors up to 2^20 / 2^26 and full vectors up to 4096. Built with try_set; set / extend / copy_bit_vec / From<BitVector> routes "
+         "must give an equal vector with identical bytes. All ten operations at every position and rank (a, c, small d) or at member/bucket edges +-1 and A(.) (b, large d). Non-trivial = has set and unset bits; distinct by hashed case key.",
+    bounds={"quick": "N=10, d=3", "thorough": "N=15, d=4"},
+    require_counters={"quick": {"cases_entering_select_zero_binary_search": 100, "width_directed_cases_hitting_the_intended_width": 600},
+                      "thorough": {"cases_entering_select_zero_binary_search": 100, "width_directed_cases_hitting_the_intended_width": 600}},
+    assumptions=[HOOK_ASSUMPTION, MODEL_ASSUMPTION, "m = 0 beyond 2^26 and full vectors beyond 4096 are not explored (memory)"],
+)
+MANIFEST_TEXT["C02"] = dict(engine="E-input", design_ref="DESIGN.md §4 C02",
+    technique="bounded exhaustive input enumeration on the real code (all subsets of small universes, every low width 1..63, run-structured sets) against a reference model",
+    level_text="Every subset of every universe up to 10/15 elements, every low-part width the parameter rule can choose (all 63 observed in the written files), positions at the first and last element of universes up to usize::MAX, "
+               "and every run-structured word up to depth 3/4 so that the select_zero binary search is entered; all ten operations at every argument in the stated sets.",
+    level_note="Trusts the reference model; dense vectors with millions of ones and empty vectors beyond 2^26 are not explored.")
+
+PROPS["C03"] = dict(
+    driver="c03", builds=["rel", "dbg"], level="exploration",
+    rule="E-input: (1) every bit sequence of length <= N as a run list; (2) every run list of <= 2 runs (thorough: <= 3) over (gap, length) magnitudes from 1 to 2^63 (1..22 code units), first gap also 0, "
+         "trailing zeros in {0, 1, 2^61}, total length capped at usize::MAX; (3) block-shape families: k tiny runs + one big run + k tiny runs (1, 8, 9, many blocks; blocks closed early) and a first block without unset bits "
+         "followed by 2..20 more blocks. Built run by run; per-bit, split-run and copy_bit_vec routes must give an equal vector with identical bytes. All ten operations at run edges, block-sample edges (read from the "
+         "file by the independent codec) +-1 and A(.); run_iter must yield exactly the maximal runs with running offset/rank/rank_zero. Non-trivial = at least one run; distinct by hashed case key.",
+    bounds={"quick": "N=10; <=2 runs over 8 magnitudes x 3 tails; 450 block shapes", "thorough": "N=13; <=2 runs over 19 magnitudes and <=3 runs over 10 magnitudes x 3 tails; 1500 block shapes"},
+    require_counters={"quick": {"vectors_with_9_or_more_blocks": 10, "vectors_longer_than_2^63": 100}, "thorough": {"vectors_with_9_or_more_blocks": 10, "vectors_longer_than_2^63": 100}},
+    assumptions=[HOOK_ASSUMPTION, MODEL_ASSUMPTION, "more than ~1300 runs per vector, and run lists longer than 3 with 2^60-scale magnitudes, are not explored"],
+)
+MANIFEST_TEXT["C03"] = dict(engine="E-input", design_ref="DESIGN.md §4 C03",
+    technique="bounded exhaustive input enumeration on the real code (run lists over a magnitude alphabet 1..2^63, block-shape families, all small bit strings) against a run-list reference model in u128",
+    level_text="Every run list of up to 2 (3) runs over magnitudes 1..2^63 with total length up to usize::MAX, block-shape families reaching 1/8/9/many blocks, early-closed blocks and a first block without unset bits, "
+               "and every bit string up to 10/13 bits; all ten operations plus run_iter at every structural edge.",
+    level_note="Trusts the reference model; vectors with more than ~1300 runs are not explored.")
